@@ -655,7 +655,7 @@ func WithDSNRcptNotifyType(opts ...DSNRcptNotifyOption) Option {
 				rcptOpts = append(rcptOpts, string(opt))
 			}
 		}
-		if ns && nns {
+		if ns && (nns || len(rcptOpts) > 1) {
 			return ErrInvalidDSNRcptNotifyCombination
 		}
 
